@@ -725,7 +725,36 @@ def need_cov(res, names, what):
 
 
 def main():
+    import shutil
+    import tempfile
+
     ck = core.Check("C03", "model_checking")
+    own = None
+    if not os.environ.get("VERIF_SCRATCH"):
+        own = tempfile.mkdtemp(prefix="c03_scratch_")
+        os.environ["VERIF_SCRATCH"] = own   # private TLC scratch, removed below whatever happens
+    pools = []
+    try:
+        _main(ck, pools)
+    finally:
+        for p in pools:
+            p.shutdown(wait=True, cancel_futures=True)
+        for r in _RESULTS:
+            r.cleanup()
+        if own:
+            shutil.rmtree(own, ignore_errors=True)
+
+
+_RESULTS = []
+
+
+def _tracked(fn, *a):
+    r = fn(*a)
+    _RESULTS.append(r)
+    return r
+
+
+def _main(ck, pools):
     core.import_repo()
     import warnings
 
@@ -759,12 +788,13 @@ def main():
     pp = cf.ProcessPoolExecutor(max_workers=4)  # forked before any thread exists
     pp.submit(int, 0).result()
     ex = cf.ThreadPoolExecutor(max_workers=8)
-    f_int = ex.submit(run_kernel, cases, "intended", "any", K_INV_W + K_INV_D + K_INV_S + ["DetailedBalance"])
-    f_imp = ex.submit(run_kernel, cases, "impl", "any", K_INV_W + K_INV_S)
-    f_none = ex.submit(run_kernel, cases, "impl", "none", K_INV_W + ["DetailedBalance"], False, False, 2)
-    f_some = ex.submit(run_kernel, cases, "impl", "some", ["DetailedBalance"], False, False, 2)
-    f_t = ex.submit(run_tpcn, tmodes, tzs, "intended", T_INV, kimg)
-    f_tv = {v: ex.submit(run_tpcn, tmodes, tzs, v, ["Reversible"], 0, 4, False, 2) for v in ("shape_nu_half", "no_sqrt", "sign_flipped")}
+    pools += [pp, ex]
+    f_int = ex.submit(_tracked, run_kernel, cases, "intended", "any", K_INV_W + K_INV_D + K_INV_S + ["DetailedBalance"])
+    f_imp = ex.submit(_tracked, run_kernel, cases, "impl", "any", K_INV_W + K_INV_S)
+    f_none = ex.submit(_tracked, run_kernel, cases, "impl", "none", K_INV_W + ["DetailedBalance"], False, False, 2)
+    f_some = ex.submit(_tracked, run_kernel, cases, "impl", "some", ["DetailedBalance"], False, False, 2)
+    f_t = ex.submit(_tracked, run_tpcn, tmodes, tzs, "intended", T_INV, kimg)
+    f_tv = {v: ex.submit(_tracked, run_tpcn, tmodes, tzs, v, ["Reversible"], 0, 4, False, 2) for v in ("shape_nu_half", "no_sqrt", "sign_flipped")}
 
     # ---- confirmations by direct simulation of the real runners (worker processes; they are NOT the oracle)
     nsim = 8000 if quick else 40000
@@ -908,14 +938,15 @@ def main():
 
     dbg(ck, "lattice replays done")
     # ---- verdict on the code = TLC's verdict on the rule the code follows
-    flat = next(((k, v) for k, v in mats_c.items() if cases[k[0] - 1]["M"] == 8 and cases[k[0] - 1]["d"] == 1 and k[1] == ("hard",) and not any(k[2])), None)
+    mats_f = mats_i if follows == "intended" else mats_c
+    flat = next(((k, v) for k, v in mats_f.items() if cases[k[0] - 1]["M"] == 8 and cases[k[0] - 1]["d"] == 1 and k[1] == ("hard",) and not any(k[2])), None)
     quant = None
     if flat:
         (fk, (_, fmat)) = flat
         pi = stationary(fmat)
         c8 = cases[fk[0] - 1]
         counts, expect, nwalk = simulate_lattice(np, mcmc, rep, c8, fmat, ("hard",), ck.seed + 11, 1000 if quick else 6000, 10)
-        quant = {"setting": "flat likelihood, M=8, d=1, hard walls, increment alphabet %s (Kernel.tla case %d)" % (c8["alpha"], fk[0]),
+        quant = {"rule": "intended" if follows == "intended" else "impl", "setting": "flat likelihood, M=8, d=1, hard walls, increment alphabet %s (Kernel.tla case %d)" % (c8["alpha"], fk[0]),
                  "target": "1/8 per cell", "stationary_law_of_spec_P": [str(p) for p in pi], "stationary_float": [round(float(p), 5) for p in pi],
                  "real_RWMRunner_counts_after_10_sweeps_from_uniform": counts, "spec_expected_counts": [round(x, 1) for x in expect],
                  "z_vs_uniform_target": [round(x, 2) for x in zscores(counts, nwalk)],
